@@ -2,7 +2,7 @@
    frame theorem for convert_rule (every backend's pipeline items point to its own pipeline object)
    in every reachable world. *)
 From Coq Require Import NArith List Bool Arith Lia.
-From PS Require Import Base.Chars Base.Outcome Model.History Spec.Frame Proofs.HistoryP.
+From PS Require Import Base.Chars Base.Outcome Model.History Spec.Frame Proofs.History15P.
 Import ListNotations.
 Open Scope N_scope.
 
